@@ -157,16 +157,24 @@ class V:
     """A stored value with a finalizer that looks at the cache it was evicted from (a resource that
     logs the cache size when it is released).  The checker keeps no reference to it, so it dies -
     inside whatever cache operation drops it - the moment the cache lets go of it."""
-    __slots__ = ("label",)
+    __slots__ = ("label", "run")
 
     def __init__(self, label):
         self.label = label
+        self.run = _KEYS.get("run")
 
     def __del__(self):
         c = _KEYS.get("cache")
-        if c is not None:
+        # only while the run that created it is still going, and only in the thread the simulator has
+        # scheduled (a value collected late, by the cyclic collector of some later run, stays silent)
+        sim = SimLock.sim
+        if c is not None and self.run is not None and self.run is _KEYS.get("run") and (
+                sim is None or (sim.cur is not None and sim.cur.thread is threading.current_thread())):
             try:
                 len(c), bool(len(c))
+                other = _KEYS.get("other")
+                if other is not None:      # a second, independent cache with its own lock
+                    0 in other, other.get(0)
             except BaseException as e:  # noqa: BLE001 - reported by the run, then re-raised (and ignored by Python)
                 _KEYS["del_error"] = type(e).__name__
                 raise
@@ -319,7 +327,8 @@ class C24:
             ops = [self._gen_op(rng, nkeys, ("s", i)) for i in range(nops)]
             return {"config": "seq", "cls": cls, "capacity": cap, "ops": ops,
                     "key_style": rng.choice(sorted(KEY_STYLES)),
-                    "values": "finalizing" if rng.chance(0.15) else "plain"}
+                    "values": "finalizing" if rng.chance(0.15) else "plain",
+                    "observe_every": rng.choice([1, 1, 3, 7, None])}
         cap = rng.randint(1, 4)
         nthreads = rng.weighted([(2, 6), (3, 6), (4, 4), (6, 2), (8, 2), (12, 1), (16, 1)])
         maxops = 8 if nthreads <= 3 else (5 if nthreads <= 6 else 2)
@@ -373,7 +382,7 @@ class C24:
     def run(self, sc):
         _KEYS.update(style=sc.get("key_style", "int"), pool={}, n=0,
                      seed=sc.get("sched_seed", len(sc.get("ops", ()))), values=sc.get("values", "plain"),
-                     cache=None, del_error=None)
+                     cache=None, del_error=None, other=None, run=object())
         try:
             res = self._run_seq(sc) if sc["config"] == "seq" else self._run_conc(sc)
             if _KEYS.get("del_error"):
@@ -385,7 +394,7 @@ class C24:
                 bump(res["stats"], "reach.finalizing_values")
             return res
         finally:
-            _KEYS.update(style="int", pool={}, n=0, values="plain", cache=None, del_error=None)
+            _KEYS.update(style="int", pool={}, n=0, values="plain", cache=None, del_error=None, other=None, run=None)
 
     def _run_seq(self, sc):
         res = new_result()
@@ -446,6 +455,13 @@ class C24:
                     "oracle": "seq.result", "sig": f"seq:{sc['cls']}:{op[0]}:result",
                     "detail": {"step": i, "op": op, "got": got, "want": want}})
                 break
+            # the checker's own look at the contents is an operation too (a listing): in some runs it
+            # happens only every few operations or at the very end, so that state an implementation
+            # defers until "the next listing" is not flushed after every single step
+            every = sc.get("observe_every", 1)
+            last = i == len(sc["ops"]) - 1
+            if not last and (every is None or (i + 1) % every):
+                continue
             listing = apply_real(cache, ["items"])
             ln = apply_real(cache, ["len"])
             mlisting = ("ok", [[k, v] for k, v in model.items])
@@ -498,6 +514,10 @@ class C24:
         try:
             cache = lru_mod.ThreadSafeLRUCache(cap)
             _KEYS["cache"] = cache
+            if sc.get("values") == "finalizing":
+                other = lru_mod.ThreadSafeLRUCache(2)
+                other[0] = "o"
+                _KEYS["other"] = other
             hist = []
             for op in sc["prefill"]:
                 out = apply_real(cache, op)
